@@ -171,7 +171,9 @@ func transformLinkReferenceSpan(source []byte, nodes []*Inline, span Span) strin
 			}
 		}
 	}
-	return cases.Fold().String(strings.TrimSpace(sb.String()))
+	// Only spaces, tabs and line endings (collapsed to spaces above) are stripped:
+	// other Unicode white space is part of the label.
+	return cases.Fold().String(strings.Trim(sb.String(), " "))
 }
 
 // ChildCount returns the number of children the node has.
